@@ -5,6 +5,7 @@ import (
 	"fmt"
 	"verif/internal/refcodec"
 
+	"github.com/libsv/go-bt/v2/bscript"
 	"github.com/libsv/go-bt/v2/bscript/interpreter"
 	"github.com/libsv/go-bt/v2/bscript/interpreter/scriptflag"
 
@@ -134,6 +135,24 @@ func c05Judge(c *mon.Ctx, in *progInput) {
 		c.Count("C05:model-declined:" + model.Unsupported)
 		return
 	}
+	// Every third program has been executed once before, from buffers that the caller has since
+	// re-used for the next message (a node validating out of its receive buffer). The judged
+	// execution - same bytes, other memory - is compared with the model as always, and its
+	// outcome is the one the earlier execution had.
+	havePre, preErr := false, ""
+	if (len(in.Unlock)+2*len(in.Lock))%3 == 1 {
+		o, _, pu, pl := libOptions(in)
+		var e0 error
+		if c.Try("interpreter.Engine.Execute", func() { e0 = theEngine(c).Execute(o...) }) {
+			havePre, preErr = true, errText(e0)
+		}
+		for _, b := range []*bscript.Script{pu, pl} {
+			for i := range *b {
+				(*b)[i] ^= 0xff
+			}
+		}
+		c.Count("C05:executed-before-from-buffers-overwritten-since")
+	}
 	rec := &recDebugger{}
 	opts, _, _, _ := libOptions(in)
 	opts = append(opts, interpreter.WithDebugger(rec))
@@ -141,6 +160,10 @@ func c05Judge(c *mon.Ctx, in *progInput) {
 	if !c.Try("interpreter.Engine.Execute", func() { libErr = theEngine(c).Execute(opts...) }) {
 		c.Count("C05:lib-panicked")
 		return
+	}
+	if havePre && preErr != errText(libErr) {
+		c.Violationf("C05:outcome-differs-from-an-earlier-execution-of-the-same-bytes:"+era(in.Flags), "first execution: %s; second execution (the first one's buffers overwritten in between): %s; unlock=%x lock=%x flags=%#x",
+			preErr, errText(libErr), []byte(in.Unlock), []byte(in.Lock), in.Flags)
 	}
 	e := era(in.Flags)
 	c.Count("C05:src:" + in.Src)
